@@ -55,16 +55,32 @@ def line_key(x):
     return rt + "=" + safe_str(x)
 
 
-def target_name(v):
+def _target_key(l, g):
+    """key of a line which a reference field points to; marked when the line is a placeholder, and
+    when it is not the line which the Gfa holds under that identifier (a replaced object)."""
+    k = line_key(l)
+    try:
+        if l.virtual:
+            k += "(virtual)"
+        if g is not None and l.record_type in ("S", "P", "E", "G", "O", "U", "\n"):
+            n = l.name
+            if isinstance(n, str) and not gfapy.is_placeholder(n) and g.line(n) is not l:
+                k += "(stale)"
+    except Exception:
+        pass
+    return k
+
+
+def target_name(v, g=None):
     """render a reference-field value (Line / OrientedLine / str / list) as identifiers."""
     if isinstance(v, list):
-        return [target_name(e) for e in v]
+        return [target_name(e, g) for e in v]
     if isinstance(v, gfapy.OrientedLine):
         l = v.line
-        n = line_key(l) if is_line(l) else "str:" + str(l)
+        n = _target_key(l, g) if is_line(l) else "str:" + str(l)
         return (n, v.orient)
     if is_line(v):
-        return line_key(v)
+        return _target_key(v, g)
     return "str:" + str(v)
 
 
@@ -106,7 +122,7 @@ def obs_line(x, g=None):
     refs = {}
     for f in REF_FIELDS.get(rt, []):
         try:
-            refs[f] = target_name(x.get(f))
+            refs[f] = target_name(x.get(f), g)
         except Exception as e:
             refs[f] = "unobservable:" + type(e).__name__
     if rt == "P":
